@@ -323,10 +323,10 @@ def r5b_single_entry_enum(rep):
                       + (': the variant is then the first entry in map order (sorted by default, insertion order under preserve_order), the other entries are ignored' if reached else ''), f.loc(b))
 
 
-def r5_order_sensitive(rep):
+def r5_order_sensitive(rep, rid='C18/R5'):
     """results must not depend on the iteration order of toml::Map, which is the one thing preserve_order changes"""
-    R = rep.rule('C18/R5', 'no position-sensitive consumption of a toml::Map iteration in library code: `enumerate` / `zip` / `nth` / `position` / `last` / '
-                 '`first` over the entries of a toml::Map (sorted by default, insertion-ordered under preserve_order) would make a verdict or a value '
+    R = rep.rule(rid, 'no position-sensitive consumption of a toml::Map iteration in library code: `enumerate` / `zip` / `nth` / `position` / `last` / '
+                 '`first` over the entries of a toml::Map, or `collect` of them into a sequence (Vec) (sorted by default, insertion-ordered under preserve_order) would make a verdict or a value '
                  'depend on the feature; order-insensitive uses (for-each, collect into a map, find by key, any / all) are fine', floor=1)
     f = Facts('default')
     MAPT = ('toml::map::Map<', 'toml::map::IntoIter', 'toml::map::Iter<', 'toml::map::IterMut<', 'toml::map::Keys<', 'toml::map::Values<')
@@ -339,7 +339,14 @@ def r5_order_sensitive(rep):
         if d.startswith('toml::map::') or d.startswith('<toml::map::'):
             continue        # the map's own delegating impls
         for n in walk(b['body']):
-            if n.get('k') != 'mcall' or n.get('name') not in SENS:
+            if n.get('k') != 'mcall':
+                continue
+            if n.get('name') == 'collect':
+                # collecting the entries into a sequence freezes the iteration order into positions; into a map / set it does not
+                t = n.get('t') or ''
+                if not any(s in t for s in ('Vec<', 'VecDeque<', 'Box<[', 'SmallVec<')) or any(s in t for s in ('Map<', 'Set<')):
+                    continue
+            elif n.get('name') not in SENS:
                 continue
             # is the receiver chain rooted in an iteration of a toml::Map?
             x = n['recv']
